@@ -10,8 +10,8 @@ def build(tier, seed):
     for w, j, flen in shapes:
         I.append(snd("c01_snd_w%d_j%d_f%d" % (w, j, flen), w, 2, j, flen, oracle=orc))
     # duplicate-packets mode must not change what a block number carries
-    for rep, w, j, flen in ([(2, 2, 1, 4)] if tier == "quick" else [(2, 2, 1, 4), (3, 1, 0, 3), (2, 3, 2, 5)]):
-        I.append(snd("c01_snd_rep%d_w%d_j%d_f%d" % (rep, w, j, flen), w, 2, j, flen, rep=rep, oracle=orc))
+    for rep, w, j, flen in ([(2, 2, 1, 3)] if tier == "quick" else [(2, 2, 1, 3), (3, 1, 0, 1), (2, 3, 2, 5)]):
+        I.append(snd("c01_snd_rep%d_w%d_j%d_f%d" % (rep, w, j, flen), w, 2, j, flen, rep=rep, oracle=orc, mem_kb=12 * 1024 * 1024))
     if tier == "thorough":
         for w, j, flen in [(1, 0, 4), (2, 0, 1), (2, 0, 2), (2, 0, 3), (2, 1, 5), (3, 0, 5), (3, 0, 6), (3, 1, 3), (3, 1, 4), (3, 2, 5), (3, 2, 8), (4, 3, 8), (65535, 1, 4)]:
             I.append(snd("c01_snd_w%d_j%d_f%d" % (w, j, flen), w, 2, j, flen, oracle=orc))
